@@ -66,6 +66,7 @@
 #endif  // UNODB_DETAIL_WITH_STATS
 
 #include "assert.hpp"
+#include "verif_hooks.hpp"
 #include "heap.hpp"
 #include "portability_arch.hpp"
 
@@ -1043,6 +1044,7 @@ class qsbr final {
   /// Get the current QSBR state word.
   /// \note Made public for tests and asserts, do not call from the user code.
   [[nodiscard]] qsbr_state::type get_state() const noexcept {
+    UNODB_DETAIL_VERIF_HOOK(::unodb::verif::ev::Q_STATE_LOAD, &state);
     return state.load(std::memory_order_acquire);
   }
 
